@@ -283,3 +283,16 @@ Proof.
       apply py_slice_mid; rewrite ?zlen_app, ?zlen_cons, ?zlen_app; lia.
   - rewrite lay_item_rule. cbv zeta. cbn [decl_ranges decl_texts]. exact Etail.
 Qed.
+
+Theorem css_properties_text (sh : sheet) (pos : Z) :
+  wf_sheet sh = true ->
+  get_css_section (render sh) pos true =
+  match section_items pos 0 (sh_items sh) with
+  | None => None
+  | Some ((a, b, ba, bb), (body, g3)) =>
+      Some (mkCS a b ba bb (Some (props_spec (render_items body ++ render_gap g3) ba (lay_items 0 body) None)))
+  end.
+Proof.
+  intros H. rewrite (css_section_text sh pos true H).
+  destruct (section_items pos 0 (sh_items sh)) as [[[[[a b] ba] bb] [body g3]]|]; reflexivity.
+Qed.
